@@ -637,6 +637,9 @@ func (x *Exec) load(t types.Type, addr Value) Value {
 		if a == nil {
 			x.tpanic("invalid memory address or nil pointer dereference")
 		}
+		if x.watch != nil && x.watch[a] {
+			x.watchHit(a, "read")
+		}
 		return copyVal(*a)
 	case *SymPtr:
 		return x.selectElem(a.base, a.idx, a.et)
@@ -664,6 +667,9 @@ func (x *Exec) selectElem(base []Value, idx *Term, et types.Type) Value {
 
 // write is the single point through which memory cells are modified (undo log for speculation).
 func (x *Exec) write(addr *Value, v Value, t types.Type) {
+	if x.watch != nil && x.watch[addr] {
+		x.watchHit(addr, "write")
+	}
 	if x.spec != nil {
 		x.spec.log = append(x.spec.log, undoRec{addr, *addr, t})
 	}
@@ -741,8 +747,12 @@ func (x *Exec) inBounds(idx Value, n int, what string) {
 			x.tpanic(fmt.Sprintf("index out of range [%d] with length %d (%s)", int64(i), n, what))
 		}
 	case *Term:
+		if termUB(i) < uint64(n) {
+			return // structurally in range (masked / reduced index): no decision
+		}
 		ok := x.st.Cmp(OpUlt, i, x.st.Const(i.w, uint64(n)))
-		if !x.branch(ok) {
+		// ask for the out-of-range case first: the common "always in range" outcome then costs one query
+		if x.branch(x.st.Not(ok)) {
 			x.tpanic(fmt.Sprintf("index out of range [symbolic] with length %d (%s)", n, what))
 		}
 	default:
